@@ -30,7 +30,7 @@ ASSUMPTIONS = [
     "operations whose arguments contain the receiver or one of its ancestors are not offered (they build a cycle; replace_with(ancestor) does not terminate)",
     "a state in which one node object sits at two positions is pruned, not judged (excluded by the statement)",
 ]
-DEPTH = {"quick": 4, "thorough": 5}
+DEPTH = {"quick": 5, "thorough": 5}
 
 
 def plan(tier, seed):
